@@ -135,7 +135,8 @@ def check_C04(run):
     nt = lambda c: has_ev(c, "CR")
     for treg, mcreg, flag in REGSETS:
         flagged = [l for l in f4 if '"upgrade":true' in l or '"more":true' in l]     # calls that carry flags: always run
-        lines = f4 if thorough else sample(run, f4, 500) + sample(run, flagged, 60)
+        pairs = [l for l in f4 if l.count('"cls":"call"') >= 3]                        # two routed calls in a row: always run
+        lines = f4 if thorough else sample(run, f4, 500) + sample(run, flagged, 60) + pairs
         replay_validate(run, lines, ["conn", "-reg", flag], "ConnTrace", conn_trace_cfg(reg=treg),
                         "C04 method strings against registered {%s}" % flag, nontrivial=nt)
     replay_validate(run, garbage, ["conn"], "ConnTrace", conn_trace_cfg(), "C04 frames that are not a call object", nontrivial=lambda c: True)
